@@ -53,19 +53,19 @@ Proof. repeat split; vm_compute; reflexivity. Qed.
 Example safe_merge_example :
   guard_safe w_schema w_safe (first_def w_safe) = true /\
   guard_alias_free w_schema w_safe (first_def w_safe) = true /\
-  c01_on w_schema w_safe (first_def w_safe) (type_of w_safe) = true /\
-  c02_on w_schema w_safe (first_def w_safe) (type_of w_safe) = true.
+  c01_on (schema_env w_schema) w_schema w_safe (first_def w_safe) (type_of w_safe) = true /\
+  c02_on (schema_env w_schema) w_schema w_safe (first_def w_safe) (type_of w_safe) = true.
 Proof. repeat split; vm_compute; reflexivity. Qed.
 
 Example fragments_example :
   guard_safe w_schema w_frag (first_def w_frag) = true /\
-  c01_on w_schema w_frag (first_def w_frag) (type_of w_frag) = true /\
-  c02_on w_schema w_frag (first_def w_frag) (type_of w_frag) = true.
+  c01_on (schema_env w_schema) w_schema w_frag (first_def w_frag) (type_of w_frag) = true /\
+  c02_on (schema_env w_schema) w_schema w_frag (first_def w_frag) (type_of w_frag) = true.
 Proof. repeat split; vm_compute; reflexivity. Qed.
 
 Example literal_conditions_example :
-  c01_on w_schema w_lit (first_def w_lit) (type_of w_lit) = true /\
-  c02_on w_schema w_lit (first_def w_lit) (type_of w_lit) = true.
+  c01_on (schema_env w_schema) w_schema w_lit (first_def w_lit) (type_of w_lit) = true /\
+  c02_on (schema_env w_schema) w_schema w_lit (first_def w_lit) (type_of w_lit) = true.
 Proof. repeat split; vm_compute; reflexivity. Qed.
 
 (** Execute_spec is inhabited on the witness documents (so [exec_in_ref_local] is not vacuous) *)
